@@ -33,9 +33,28 @@ def parse_invocation(text):
     if marker not in text:
         return None
     inv = text.split(marker, 1)[1]
-    cut = inv.find(' (which returns')
-    if cut >= 0:
-        inv = inv[:cut]
+    # keep the balanced call expression only: CrossHair may append
+    # ' with crosshair.patch_to_return(...)' and ' (which returns ...)'
+    depth = 0
+    end = None
+    instr = None
+    for k, ch in enumerate(inv):
+        if instr:
+            if ch == instr and inv[k - 1] != chr(92):
+                instr = None
+            continue
+        if ch in '"' + "'":
+            instr = ch
+        elif ch in '([{':
+            depth += 1
+        elif ch in ')]}':
+            depth -= 1
+            if depth == 0:
+                end = k + 1
+                break
+    if end is None:
+        return None
+    inv = inv[:end]
     try:
         node = ast.parse(inv.strip(), mode='eval').body
         if not isinstance(node, ast.Call):
